@@ -403,6 +403,11 @@ func oracle(c Case) (evid.Info, error) {
 	}
 	in, lexErrs := contentTokens(c.Text)
 	out, _ := contentTokens(t1)
+	if lexErrs > 0 {
+		// The text holds characters that are no token of the language. A model for it means they were dropped:
+		// `n.age != 30` read as `n.age = 30`.
+		return info, fmt.Errorf("accepted %q although %d stretch(es) of it are no token of the language; it was read as %q", c.Text, lexErrs, t1)
+	}
 	if lexErrs == 0 {
 		lost, gained := multisetDiff(in, out)
 		if len(lost) > 0 || len(gained) > 0 {
@@ -433,7 +438,17 @@ func genCorpusMut(t *rapid.T) Case {
 	n := rapid.IntRange(1, 2).Draw(t, "nmut")
 	for i := 0; i < n && len(toks) > 1; i++ {
 		j := rapid.IntRange(0, len(toks)-1).Draw(t, "j")
-		switch rapid.IntRange(0, 3).Draw(t, "mut") {
+		switch rapid.IntRange(0, 4).Draw(t, "mut") {
+		case 4:
+			// text that is no token of the language, put where the rest stays a well-formed query: in front of a
+			// token (n.age != 30), behind the last one (an unterminated quote, a stray sign)
+			stray := rapid.SampledFrom([]string{"!", "~", "#", "&", "@", "?", "\\", "'", "\"", "`", "¬", "§"}).Draw(t, "stray")
+			if rapid.IntRange(0, 2).Draw(t, "strayAtEnd") == 0 {
+				j = len(toks) - 1
+				toks[j].Text = toks[j].Text + " " + stray
+			} else {
+				toks[j].Text = stray + toks[j].Text
+			}
 		case 0:
 			toks = append(toks[:j:j], toks[j+1:]...)
 		case 1:
